@@ -145,6 +145,29 @@ def run(ctx: Ctx) -> Result:
                 pcases.append({"params": {"max": mx, "tried": tried, "result": result, "ts": -S, "timeout": 5 * S},
                                "pol": ("const", 5 * S), "calls": _renumber(s), "fin": ("return", 5), "rbb": True})
     res.count(f"actor_exhaustive_len<={Ld}", len(pcases))
+    # ---- callback order: several set_result / set_exception calls with callbacks registered before, between and after
+    # them, then an eager action: the store takes the place of the LATEST set_* call
+    order_cases = []
+    for k in (2, 3):
+        for kinds in itertools.product(("set_result", "set_exception"), repeat=k):
+            for gaps in itertools.product((False, True), repeat=k + 1):
+                if not any(gaps[1:k]):
+                    continue            # at least one callback between two set_* calls
+                for term in pr.TERMINAL:
+                    calls, v = [], 10
+                    for i in range(k + 1):
+                        if gaps[i]:
+                            calls.append(("add_callback", (0, False), False))
+                        if i < k:
+                            v += 1
+                            calls.append((kinds[i], v if kinds[i] == "set_result" else 50 + v, False))
+                    calls.append((term, None, False))
+                    order_cases.append({"params": {"max": 2, "tried": 0, "result": ("r", 60 * S), "ts": -S, "timeout": 5 * S},
+                                        "pol": ("const", 5 * S), "calls": _renumber(calls), "fin": ("return", 5), "rbb": True})
+    rng.shuffle(order_cases)
+    order_cases = order_cases[:ctx.scale(300, 3000)]
+    pcases += order_cases
+    res.count("actor_callback_order_family", len(order_cases))
     n_rand = ctx.scale(400, 4000)
     for _ in range(n_rand):
         calls = _renumber(pr.gen_calls(rng, rng.randint(2, 8), dep=True))
